@@ -158,6 +158,10 @@ func (b *builder) build(name string) (*variant, error) {
 	if strings.Contains(name, "race") {
 		args = append(args, "-race")
 	}
+	if strings.HasSuffix(name, "-cover") {
+		// reach probes: Go's own coverage instrumentation of the library
+		args = append(args, "-cover", "-coverpkg=all")
+	}
 	if strings.Contains(name, "pie") {
 		args = append(args, "-buildmode=pie")
 	}
